@@ -30,6 +30,9 @@ pub enum LifeOp {
     DropPackage { p: usize },
     /// turn the handle in slot `h` into a plain closure (`TypedFunc::into_func`); it still is a holder
     IntoFunc { h: usize },
+    /// `Runtime::add` one more registered constant (payload 5000+aid) to the runtime in slot `r`;
+    /// scripts compiled from it (or from clones made afterwards) use the constant
+    AddConstant { r: usize, aid: u64 },
 }
 
 #[derive(Clone, Debug, Serialize, Deserialize)]
@@ -140,7 +143,23 @@ pub fn c_payload(m: u64) -> u64 {
     10_000 + 10 * m
 }
 
-pub fn script(m: u64, k: u64, broken: bool) -> String {
+pub fn many_constants(k: u64) -> u64 {
+    if k == 6 { 72 } else { 0 }
+}
+
+pub fn script(m: u64, k: u64, broken: bool, extras: &[u64]) -> String {
+    // constants added to the runtime after its construction (payload 5000+aid, name X<aid>)
+    let ex_body = if extras.is_empty() { "0".to_string() } else { extras.iter().map(|p| format!("val(X{})", p - 5000)).collect::<Vec<_>>().join(" + ") };
+    // version 6 carries 72 more script constants (their storage is more than 1 KiB)
+    let nmany = many_constants(k);
+    let many_decl: String = (0..nmany).map(|i| if i % 10 == 9 { format!("const N{i}_{k}: String = \"n{i}\";\n") } else { format!("const N{i}_{k}: u64 = {};\n", i + k) }).collect();
+    // (one statement per constant: a single 81-term `+` chain takes roto's front end tens of seconds)
+    let many_body = format!("let acc = 0; {} acc", (0..nmany).filter(|i| i % 10 != 9).map(|i| format!("acc = acc + N{i}_{k};")).collect::<Vec<_>>().join(" "));
+    let tail = format!("{many_decl}fn ex_{k}() -> u64 {{ {ex_body} }}\nfn many_{k}() -> u64 {{ {many_body} }}\n");
+    script_base(m, k, broken) + &tail
+}
+
+fn script_base(m: u64, k: u64, broken: bool) -> String {
     let c0 = c_payload(m);
     let (c1, c2, c3) = (c0 + 1, c0 + 2, c0 + 3);
     let b = if broken { "let q: bool = 3;" } else { "" };
@@ -181,7 +200,7 @@ fn ks_{k}() -> String {{
         None => "none",
     }}
 }}
-fn f(x: u64) -> u64 {{ {b} log(x); let part_{k} = helper_{k}(x); let rc = {rc}; part_{k} + val({c}) + val({d}) + val(K) + cap() + {l}.len() + {lt}.len() + opt_{k}() + rc.n + val(rc.t) + ko_{k}() + KL.len() }}
+fn f(x: u64) -> u64 {{ {b} log(x); let part_{k} = helper_{k}(x); let rc = {rc}; part_{k} + val({c}) + val({d}) + val(K) + cap() + {l}.len() + {lt}.len() + opt_{k}() + rc.n + val(rc.t) + ko_{k}() + KL.len() + ex_{k}() + many_{k}() }}
 fn s(a: String) -> String {{ let rc = {rc}; a + {s} + rc.s + ks_{k}() }}
 test keeps_{k} {{
     if val({c}) == {c0} && cap() > 0 {{ accept }} else {{ reject }}
@@ -196,6 +215,8 @@ fn t(v: Tr) -> Tr {{ if val(v) > 5 {{ {c} }} else {{ v }} }}
 struct RtEnt {
     rid: u64,
     rt: Sendable<Runtime<NoCtx>>,
+    /// payloads of the constants added to this runtime value after construction
+    extras: Vec<u64>,
 }
 struct PkEnt {
     m: u64,
@@ -231,6 +252,7 @@ static POOLS: Mutex<Option<Pools>> = Mutex::new(None);
 struct Mod {
     rid: u64,
     k: u64,
+    extras: Vec<u64>,
     pkg: bool,
     handles: i64,
     compiled_by: usize,
@@ -238,6 +260,8 @@ struct Mod {
 }
 #[derive(Default)]
 struct Model {
+    /// payload of an added constant -> number of live runtime values carrying it
+    extra_holders: BTreeMap<u64, i64>,
     rt_clones: BTreeMap<u64, i64>,
     mods: BTreeMap<u64, Mod>,
 }
@@ -297,6 +321,21 @@ fn check_not_before(site: &str) {
             return;
         }
     }
+    let mut need: Vec<u64> = model.extra_holders.iter().filter(|(_, n)| **n > 0).map(|(p, _)| *p).collect();
+    for x in model.mods.values() {
+        if x.pkg || x.handles > 0 {
+            need.extend(x.extras.iter().copied());
+        }
+    }
+    for p in need {
+        if live.get(&p).copied().unwrap_or(0) < 1 {
+            viol::record(
+                "released-too-early",
+                format!("at {site}: the registered constant X{} (added to a runtime with Runtime::add) was released although a runtime carrying it or a module compiled with it is still alive", p - 5000),
+            );
+            return;
+        }
+    }
     for (&rid, _) in &model.rt_clones {
         if model.rt_alive(rid) {
             for (what, p) in [("registered constant K", 200 + rid), ("state captured by the registered closure", 100 + rid), ("the tracked value inside the registered constant KO: Option<..>", 300 + rid)] {
@@ -315,7 +354,12 @@ fn check_not_before(site: &str) {
 // ------------------------------------------------------------------ executing operations
 
 fn drop_rt(e: RtEnt) {
-    with_model(|m| *m.rt_clones.entry(e.rid).or_insert(0) -= 1);
+    with_model(|m| {
+        *m.rt_clones.entry(e.rid).or_insert(0) -= 1;
+        for p in &e.extras {
+            *m.extra_holders.entry(*p).or_insert(0) -= 1;
+        }
+    });
     note_drop();
     drop(e);
 }
@@ -408,6 +452,7 @@ fn label(op: &LifeOp) -> &'static str {
         LifeOp::DropHandle { .. } => "drop-handle",
         LifeOp::DropPackage { .. } => "drop-package",
         LifeOp::IntoFunc { .. } => "into-func",
+        LifeOp::AddConstant { .. } => "add-constant",
     }
 }
 
@@ -448,13 +493,18 @@ fn exec_inner(op: &LifeOp) -> bool {
         LifeOp::NewRuntime { r, rid } => {
             let rt = mk_runtime(*rid);
             with_model(|m| *m.rt_clones.entry(*rid).or_insert(0) += 1);
-            put_rt(*r, RtEnt { rid: *rid, rt: Sendable(rt) });
+            put_rt(*r, RtEnt { rid: *rid, rt: Sendable(rt), extras: vec![] });
             true
         }
         LifeOp::CloneRuntime { src, dst } => {
             let Some(e) = with_pools(|p| p.rts[*src].take()) else { return false };
-            let c = RtEnt { rid: e.rid, rt: Sendable(e.rt.0.clone()) };
-            with_model(|m| *m.rt_clones.entry(c.rid).or_insert(0) += 1);
+            let c = RtEnt { rid: e.rid, rt: Sendable(e.rt.0.clone()), extras: e.extras.clone() };
+            with_model(|m| {
+                *m.rt_clones.entry(c.rid).or_insert(0) += 1;
+                for p in &c.extras {
+                    *m.extra_holders.entry(*p).or_insert(0) += 1;
+                }
+            });
             back_rt(*src, e);
             put_rt(*dst, c);
             true
@@ -466,7 +516,8 @@ fn exec_inner(op: &LifeOp) -> bool {
         }
         LifeOp::Compile { r, p, m, k } => {
             let Some(e) = with_pools(|p| p.rts[*r].take()) else { return false };
-            let src = script(*m, *k, false);
+            let src = script(*m, *k, false, &e.extras);
+            let extras = e.extras.clone();
             if IN_COMPILE.fetch_add(1, SeqCst) > 0 {
                 P_COMPILE_OVERLAP.fetch_add(1, SeqCst);
             }
@@ -483,7 +534,7 @@ fn exec_inner(op: &LifeOp) -> bool {
                 Ok(pkg) => {
                     let failed_before = FAILED_RELOADS.load(SeqCst) > 0;
                     with_model(|md| {
-                        md.mods.insert(*m, Mod { rid, k: *k, pkg: true, handles: 0, compiled_by: me, after_failed_reload: failed_before });
+                        md.mods.insert(*m, Mod { rid, k: *k, extras: extras.clone(), pkg: true, handles: 0, compiled_by: me, after_failed_reload: failed_before });
                     });
                     back_rt(*r, e);
                     put_pk(*p, PkEnt { m: *m, pkg: Sendable(pkg) });
@@ -497,7 +548,7 @@ fn exec_inner(op: &LifeOp) -> bool {
         }
         LifeOp::CompileBroken { r, m, k } => {
             let Some(e) = with_pools(|p| p.rts[*r].take()) else { return false };
-            let src = script(*m, *k, true);
+            let src = script(*m, *k, true, &e.extras);
             let res = {
                 let old_mod = alloc::set_module(*m as u32);
                 let _cg = alloc::ModeGuard::new(alloc::MODE_COMPILE);
@@ -581,11 +632,11 @@ fn exec_inner(op: &LifeOp) -> bool {
         }
         LifeOp::Call { h, x } => {
             let Some(e) = with_pools(|p| p.hds[*h].take()) else { return false };
-            let (rid, k, pkg_alive, rt_clones, afr) = with_model(|md| {
+            let (rid, k, pkg_alive, rt_clones, afr, extras) = with_model(|md| {
                 let x = md.mods.get(&e.m).cloned();
                 match x {
-                    Some(x) => (x.rid, x.k, x.pkg, md.rt_clones.get(&x.rid).copied().unwrap_or(0), x.after_failed_reload),
-                    None => (0, 0, false, 0, false),
+                    Some(x) => (x.rid, x.k, x.pkg, md.rt_clones.get(&x.rid).copied().unwrap_or(0), x.after_failed_reload, x.extras.clone()),
+                    None => (0, 0, false, 0, false, vec![]),
                 }
             });
             if !pkg_alive && rt_clones == 0 {
@@ -605,8 +656,10 @@ fn exec_inner(op: &LifeOp) -> bool {
                         _ => unreachable!(),
                     };
                     let log = take_hostlog();
-                    let want = x.wrapping_mul(k) + 2 * c + (200 + rid) + (100 + rid) + 2 + 1 + (c + 2) + k + (c + 3) + (300 + rid) + 2;
-                    let want_log: Vec<(&str, u64)> = vec![("log", *x), ("val", c), ("val", c), ("val", 200 + rid), ("cap", 100 + rid), ("val", c + 2), ("val", c + 3), ("val", 300 + rid)];
+                    let many: u64 = (0..many_constants(k)).filter(|i| i % 10 != 9).map(|i| i + k).sum();
+                    let want = x.wrapping_mul(k) + 2 * c + (200 + rid) + (100 + rid) + 2 + 1 + (c + 2) + k + (c + 3) + (300 + rid) + 2 + extras.iter().sum::<u64>() + many;
+                    let mut want_log: Vec<(&str, u64)> = vec![("log", *x), ("val", c), ("val", c), ("val", 200 + rid), ("cap", 100 + rid), ("val", c + 2), ("val", c + 3), ("val", 300 + rid)];
+                    want_log.extend(extras.iter().map(|p| ("val", *p)));
                     if got != want || log != want_log {
                         viol::record(
                             "wrong-result",
@@ -670,6 +723,26 @@ fn exec_inner(op: &LifeOp) -> bool {
             drop_pk(e);
             true
         }
+        LifeOp::AddConstant { r, aid } => {
+            let Some(mut e) = with_pools(|p| p.rts[*r].take()) else { return false };
+            if e.extras.len() >= 3 || e.extras.contains(&(5000 + aid)) {
+                back_rt(*r, e);
+                return false;
+            }
+            let payload = 5000 + aid;
+            let v = Val(T24::new(payload));
+            let name = format!("X{aid}");
+            let res = roto::Constant::new(name.as_str(), "added after construction", v, roto::location!()).and_then(|c| e.rt.0.add(c));
+            match res {
+                Ok(()) => {
+                    e.extras.push(payload);
+                    with_model(|m| *m.extra_holders.entry(payload).or_insert(0) += 1);
+                }
+                Err(err) => viol::record("registration-failed", format!("Runtime::add of constant {name}: {err}")),
+            }
+            back_rt(*r, e);
+            true
+        }
         LifeOp::IntoFunc { h } => {
             let Some(e) = with_pools(|p| p.hds[*h].take()) else { return false };
             let m = e.m;
@@ -698,9 +771,10 @@ struct Sym {
     hds: Vec<Option<u64>>,
     next_rid: u64,
     next_m: u64,
+    next_aid: u64,
 }
 
-fn gen_op(r: &mut Rng, s: &mut Sym, weights: &[u32; 11]) -> Option<LifeOp> {
+fn gen_op(r: &mut Rng, s: &mut Sym, weights: &[u32; 12]) -> Option<LifeOp> {
     let full = |v: &Vec<Option<u64>>| -> Vec<usize> { (0..v.len()).filter(|&i| v[i].is_some()).collect() };
     let empty_or_any = |r: &mut Rng, v: &Vec<Option<u64>>| -> usize {
         let e: Vec<usize> = (0..v.len()).filter(|&i| v[i].is_none()).collect();
@@ -776,6 +850,10 @@ fn gen_op(r: &mut Rng, s: &mut Sym, weights: &[u32; 11]) -> Option<LifeOp> {
             10 if !hds.is_empty() => {
                 return Some(LifeOp::IntoFunc { h: *r.pick(&hds) });
             }
+            11 if !rts.is_empty() => {
+                s.next_aid += 1;
+                return Some(LifeOp::AddConstant { r: *r.pick(&rts), aid: s.next_aid });
+            }
             _ => {}
         }
     }
@@ -784,13 +862,13 @@ fn gen_op(r: &mut Rng, s: &mut Sym, weights: &[u32; 11]) -> Option<LifeOp> {
 
 pub fn generate(run_seed: u64, thorough: bool) -> LifeDesc {
     let mut r = Rng::new(rng::derive(run_seed, &[rng::label("workload")]));
-    let mut s = Sym { rts: vec![None; N_RT], pks: vec![None; N_PK], hds: vec![None; N_HD], next_rid: 0, next_m: 0 };
+    let mut s = Sym { rts: vec![None; N_RT], pks: vec![None; N_PK], hds: vec![None; N_HD], next_rid: 0, next_m: 0, next_aid: 0 };
     // phase 1: sequential setup on the main thread
     let mut setup = Vec::new();
-    let w_setup: [u32; 11] = [12, 6, 6, 22, 4, 24, 8, 8, 4, 4, 3];
+    let w_setup: [u32; 12] = [12, 6, 6, 22, 4, 24, 8, 8, 4, 4, 3, 6];
     let n_setup = 3 + r.below(if thorough { 10 } else { 7 });
     // always start with a runtime
-    setup.push(gen_op(&mut r, &mut s, &[1, 0, 0, 0, 0, 0, 0, 0, 0, 0, 0]).unwrap());
+    setup.push(gen_op(&mut r, &mut s, &[1, 0, 0, 0, 0, 0, 0, 0, 0, 0, 0, 0]).unwrap());
     for _ in 0..n_setup {
         if let Some(op) = gen_op(&mut r, &mut s, &w_setup) {
             setup.push(op);
@@ -799,7 +877,7 @@ pub fn generate(run_seed: u64, thorough: bool) -> LifeDesc {
     // phase 2: a random merge of operations over 1-3 threads
     let nthreads = 1 + r.weighted(&[10, 55, 35]);
     let per = if thorough { 3 + r.below(10) } else { 2 + r.below(6) } as usize;
-    let w: [u32; 11] = [3, 4, 8, 13, 4, 12, 8, 30, 12, 8, 4];
+    let w: [u32; 12] = [3, 4, 8, 13, 4, 12, 8, 30, 12, 8, 4, 5];
     let mut threads: Vec<Vec<LifeOp>> = vec![Vec::new(); nthreads];
     for _ in 0..per * nthreads {
         let t = r.below(nthreads as u64) as usize;
